@@ -53,6 +53,14 @@ BIN = {nodes.Add: "+", nodes.Sub: "-", nodes.Mul: "*", nodes.Div: "/", nodes.Flo
        nodes.Mod: "%", nodes.Pow: "**"}
 
 
+def _dict_keys(e):
+    """iterating a dict iterates its keys: `x.element_count | first` is `x.element_count.keys() | first` (canonical form); also
+    applied after a substitution (a loop variable standing for `x.element_count`) has produced the left-hand spelling"""
+    if e[0] == "filter" and e[1] in ("first", "last", "list", "length", "join", "sort") and e[2][0] == "attr" and e[2][2] == "element_count":
+        return e[:2] + (("call", ("attr", e[2], "keys"), (), ()),) + e[3:]
+    return e
+
+
 def jx(n):
     if n is None:
         return None
@@ -70,11 +78,8 @@ def jx(n):
     if t is nodes.Filter:
         inner = jx(n.node)
         name = _FILTER_ALIAS.get(n.name, n.name)
-        # iterating a dict iterates its keys: `x.element_count | first` is `x.element_count.keys() | first` (canonical form)
-        if name in ("first", "last", "list", "length", "join", "sort") and inner[0] == "attr" and inner[2] == "element_count":
-            inner = ("call", ("attr", inner, "keys"), (), ())
-        return ("filter", name, inner, tuple(jx(a) for a in n.args),
-                tuple((k.key, jx(k.value)) for k in n.kwargs))
+        return _dict_keys(("filter", name, inner, tuple(jx(a) for a in n.args),
+                           tuple((k.key, jx(k.value)) for k in n.kwargs)))
     if t is nodes.Test:
         return ("test", n.name, jx(n.node), tuple(jx(a) for a in n.args))
     if t is nodes.Call:
@@ -658,8 +663,18 @@ def _items(tree, body, rel, config, depth) -> list:
         elif t in (nodes.CallBlock, nodes.FilterBlock, nodes.With, nodes.Scope):
             out.append(("other", t.__name__, n.lineno, rel))
             body2 = getattr(n, "body", None)
+            inner = config
+            if t is nodes.With:
+                # `{% with a = X %} .. {% endwith %}` binds like `{% set a = X %}` for its body (scoping is not modelled beyond
+                # that: a read of the same name AFTER the block would see this binding too -- the rules resolve names backwards from
+                # a use, and a use after `endwith` of a name bound only by the block is an undefined variable in Jinja anyway)
+                inner = dict(config)
+                for tg_, v_ in zip(n.targets, n.values):
+                    out.append(("set", jx(tg_), jx(v_), n.lineno, rel))
+                    for x in ([tg_] if isinstance(tg_, nodes.Name) else tg_.find_all(nodes.Name)):
+                        inner.pop(x.name, None)
             if body2:
-                out.extend(_items(tree, body2, rel, config, depth))
+                out.extend(_items(tree, body2, rel, inner, depth))
         else:
             out.append(("other", t.__name__, getattr(n, "lineno", 0), rel))
     return out
@@ -840,7 +855,8 @@ def subst_names(e, env: dict):
         return e
     if len(e) == 2 and e[0] == "name" and isinstance(e[1], str):
         return env.get(e[1], e)
-    return tuple(subst_names(x, env) if isinstance(x, tuple) else x for x in e)
+    r = tuple(subst_names(x, env) if isinstance(x, tuple) else x for x in e)
+    return _dict_keys(r) if len(r) == 5 and r[0] == "filter" and isinstance(r[2], tuple) and r[2] else r
 
 
 def propagate_sets(items):
